@@ -208,9 +208,29 @@ def run(chk):
                         break
                 if bad:
                     break
+    # ---- the entry point read_geqdsk on NAMED files within one interpreter: one path re-used for different contents, one file read twice; the reference is
+    # the same sequence with a fresh name per step (and, for the first step, a fresh interpreter)
+    seq = [("a.geqdsk", "lsn", 1.0), ("a.geqdsk", "cdn", -1.0), ("b.geqdsk", "lsn", 1.0), ("a.geqdsk", "cdn", -1.0)]
+    mk = lambda names: [dict(file=nm, family=fam, sign=sg, settings=dict(number_of_processors=1)) for nm, (_, fam, sg) in zip(names, seq)]
+    rc1, same, log1 = impl("filehistory", dict(workdir=os.path.join(tmp, "fh1"), steps=mk([x[0] for x in seq])), 900)
+    rc2, uniq, log2 = impl("filehistory", dict(workdir=os.path.join(tmp, "fh2"), steps=mk([f"u{i}.geqdsk" for i in range(len(seq))])), 900)
+    if not same or not uniq or len(same) != len(seq) or len(uniq) != len(seq):
+        chk.tie_broken("impl/provenance.py:filehistory", f"rc={rc1},{rc2}: {log1[-600:]} {log2[-600:]}")
+    else:
+        for i, (a, b) in enumerate(zip(same, uniq)):
+            n += len(a["psi"])
+            diff = [k for k in ("o_point", "x_points", "psi", "psi_sep", "fpol") if a[k] != b[k]]
+            if diff:
+                chk.fail("history-dependence:file-name", "an equilibrium read from a named geqdsk file depends on what was read from a file of that name earlier in the same interpreter",
+                         {"sequence": [list(x) for x in seq], "step": i, "fields": diff, "o_point": a["o_point"], "o_point_of_the_file": b["o_point"]})
+                break
+            if a["geqdsk_input_digest"] is not None and a["geqdsk_input_digest"] != a["file_digest"]:
+                chk.fail("embedded-input-is-not-the-file", "the geqdsk text an equilibrium keeps for embedding is not the text of the file it was read from", {"step": i})
+                break
+        summary["file-name-history"] = {"steps": len(seq), "psi_samples_per_step": len(same[0]["psi"])}
     shutil.rmtree(tmp, ignore_errors=True)
     chk.count(evaluations=n, distinct=n)
     chk.cov["rule"] = ("constructor on caller-owned arrays: 2 families x both signs x 5 option sets, three constructions each (arrays, wall list, psi_axis, psi_bdry, Bt_axis, psi, fpol); "
                        "command-line round trips (geqdsk written with hypnotoad's writer -> hypnotoad-geqdsk twice -> hypnotoad-recreate-inputs -> hypnotoad-geqdsk) for option sets incl. sign options, "
-                       "defaults that are expressions, a YAML file with an expr: option: every numeric variable bit-identical, only grid_id / versions / file name differ; one interpreter building W, X, Y, Z, X, W (W: defaults that are expressions, non-orthogonal): arrays and evaluated option sets")
+                       "defaults that are expressions, a YAML file with an expr: option: every numeric variable bit-identical, only grid_id / versions / file name differ; one interpreter building W, X, Y, Z, X, W (W: defaults that are expressions, non-orthogonal): arrays and evaluated option sets; read_geqdsk on named files in one interpreter (a name re-used for other contents, a file read twice) against fresh names")
     chk.notes["roundtrips"] = summary
